@@ -70,6 +70,15 @@ BOOL WINAPI DllMain(HINSTANCE hinstDLL, DWORD fdwReason, LPVOID lpvReserved)
 
 static const char *__io_error = "file I/O error";
 
+static void __config_set_error(config_t *config, config_error_t type,
+                               const char *text)
+{
+  config->error_type = type;
+  config->error_text = text;
+  config->error_file = NULL;
+  config->error_line = 0;
+}
+
 static void __config_list_destroy(config_list_t *list);
 static void __config_write_setting(const config_t *config,
                                    const config_setting_t *setting,
@@ -517,6 +526,9 @@ static int __config_read(config_t *config, FILE *stream, const char *filename,
   struct parse_context parse_ctx;
   int r;
 
+  /* Forget the outcome of any previous call. */
+  __config_set_error(config, CONFIG_ERR_NONE, NULL);
+
   config_clear(config);
 
   libconfig_parsectx_init(&parse_ctx);
@@ -648,8 +660,7 @@ int config_read_file(config_t *config, const char *filename)
     if(stream != NULL)
       fclose(stream);
 
-    config->error_text = __io_error;
-    config->error_type = CONFIG_ERR_FILE_IO;
+    __config_set_error(config, CONFIG_ERR_FILE_IO, __io_error);
     return(CONFIG_FALSE);
   }
 
@@ -666,8 +677,7 @@ int config_write_file(config_t *config, const char *filename)
   FILE *stream = fopen(filename, "wt");
   if(stream == NULL)
   {
-    config->error_text = __io_error;
-    config->error_type = CONFIG_ERR_FILE_IO;
+    __config_set_error(config, CONFIG_ERR_FILE_IO, __io_error);
     return(CONFIG_FALSE);
   }
 
@@ -682,15 +692,14 @@ int config_write_file(config_t *config, const char *filename)
       if(posix_fsync(fd) != 0)
       {
         fclose(stream);
-        config->error_text = __io_error;
-        config->error_type = CONFIG_ERR_FILE_IO;
+        __config_set_error(config, CONFIG_ERR_FILE_IO, __io_error);
         return(CONFIG_FALSE);
       }
     }
   }
 
   fclose(stream);
-  config->error_type = CONFIG_ERR_NONE;
+  __config_set_error(config, CONFIG_ERR_NONE, NULL);
   return(CONFIG_TRUE);
 }
 
